@@ -65,16 +65,16 @@ def client_imap(port, inject, split):
     s = socket.create_connection(('127.0.0.1', port))
     s.setsockopt(socket.IPPROTO_TCP, socket.TCP_NODELAY, 1)
     s.sendall(b'PROXY TCP4 1.2.3.4 5.6.7.8 1234 143\r\n')          # a remote peer: the TLS requirement applies
-    greeting = recv_some(s, 3.0) or b''
+    greeting = recv_some(s, 10.0) or b''
     log.append(['greeting', greeting[:120].decode('latin1')])
     if split:
         s.sendall(b'a STARTTLS\r\n')
-        first = recv_some(s, 3.0) or b''
+        first = recv_some(s, 10.0) or b''
         s.sendall(inject)          # clear text after the OK, before the handshake
         time.sleep(0.1)
     else:
         s.sendall(b'a STARTTLS\r\n' + inject)
-        first = recv_some(s, 3.0) or b''
+        first = recv_some(s, 10.0) or b''
     log.append(['clear', first[:200].decode('latin1')])
     if b'a OK' not in first:
         s.close()
@@ -91,7 +91,7 @@ def client_imap(port, inject, split):
     if unsolicited is not None:
         try:
             t.sendall(b'z LIST "" *\r\n')
-            after = recv_some(t, 3.0)
+            after = recv_some(t, 10.0)
         except (OSError, ssl.SSLError):
             after = None
         log.append(['tls-list', None if after is None else after[:200].decode('latin1')])
@@ -106,16 +106,16 @@ def client_sieve(port, inject, split):
     log = []
     s = socket.create_connection(('127.0.0.1', port))
     s.setsockopt(socket.IPPROTO_TCP, socket.TCP_NODELAY, 1)
-    greeting = recv_some(s, 3.0) or b''
+    greeting = recv_some(s, 10.0) or b''
     log.append(['greeting', greeting[-80:].decode('latin1')])
     if split:
         s.sendall(b'STARTTLS\r\n')
-        first = recv_some(s, 3.0) or b''
+        first = recv_some(s, 10.0) or b''
         s.sendall(inject)
         time.sleep(0.1)
     else:
         s.sendall(b'STARTTLS\r\n' + inject)
-        first = recv_some(s, 3.0) or b''
+        first = recv_some(s, 10.0) or b''
     log.append(['clear', first[:200].decode('latin1')])
     if not first.startswith(b'OK'):
         s.close()
@@ -189,6 +189,10 @@ async def tls_case(part, r, key):
     case['log'] = res['log']
     part.stat(f'tls-{which}:' + ('split' if split else 'one-segment'))
     part.case(key=key + ':' + which + ':' + inject.hex()[:40] + (':s' if split else ''), nontrivial=True, sample=dict(listener=which, inject=inject.decode('latin1'), split=split))
+    if not res.get('starttls_ok') and not any(w in (res['log'][1][1] if len(res['log']) > 1 else '') for w in ('a NO', 'a BAD', 'NO ', 'BYE')):
+        # nothing came back in time (a busy machine: this leg runs against the wall clock): inconclusive, said in the evidence, not an alarm
+        part.stat(f'tls-{which}:no-answer-in-time')
+        return
     if not res.get('starttls_ok'):
         part.violation('monitor', f'{which}: STARTTLS on a TLS-enabled listener was not answered OK: {res["log"]}', case, signature='tls-starttls-refused')
         return
@@ -211,6 +215,8 @@ async def tls_case(part, r, key):
         if after is not None and b'z OK' in after:
             part.violation('monitor', f'imap: after STARTTLS + clear-text {inject!r} the connection is authenticated without any credentials inside TLS: LIST answered {after[:120]!r}',
                            case, signature='tls-injection-authenticated')
+        elif after == b'':
+            part.stat('tls-imap:no-answer-in-time')
         elif after is not None and not any(l.startswith((b'z NO', b'z BAD')) for l in after.split(b'\r\n')):
             part.violation('monitor', f'imap: a command sent inside TLS after the handshake was answered {after[:120]!r}', case, signature='tls-after')
     else:
